@@ -16,6 +16,7 @@ import TruthModel.Driver.C13
 import TruthModel.Driver.C17
 import TruthModel.Driver.C03
 import TruthModel.Driver.C01
+import TruthModel.Driver.Files
 /-
 Line-protocol driver: `truthmodel <property-id>` reads one S-expression case per line on stdin and
 prints the model's canonical result line for it.  Imports only the import-free model files so it
@@ -40,8 +41,8 @@ def handler (id : String) : Sexp → Sexp :=
   | "C14" => Driver.C14.handle
   | "C13" => Driver.C13.handle
   | "C17" => Driver.C17.handle
-  | "C03" => Driver.C03.handle
-  | "C16" => Driver.C03.handle
+  | "C03" => Driver.Files.handle
+  | "C16" => Driver.Files.handle
   | "C01" => Driver.C01.handle
   | _ => fun _ => .atom "unknown-property"
 
